@@ -2143,51 +2143,42 @@ func (f *fragment) bulkImportMutex(rowIDs, columnIDs []uint64) error {
 	defer f.mu.Unlock()
 
 	rowSet := make(map[uint64]struct{})
-	// we have to maintain which columns are getting bits set as a map so that
-	// we don't end up setting multiple bits in the same column if a column is
-	// repeated within the import.
-	colSet := make(map[uint64]uint64)
-
-	// Since each imported bit will at most set one bit and clear one bit, we
-	// can reuse the rowIDs and columnIDs slices as the set and clear slice
-	// arguments to importPositions. The set positions we'll get from the
-	// colSet, but we maintain clearIdx as we loop through row and col ids so
-	// that we know how many bits we need to clear and how far through columnIDs
-	// we are.
-	clearIdx := 0
+	// The import is applied in order, so when a column is repeated within the
+	// import its last entry decides the row. Resolve that first; comparing
+	// every entry with storage alone would let an earlier entry win whenever
+	// a later one names the row the column is already in.
+	final := make(map[uint64]uint64, len(columnIDs))
 	for i := range rowIDs {
-		rowID, columnID := rowIDs[i], columnIDs[i]
-		if existingRowID, found, err := f.mutexVector.Get(columnID); err != nil {
+		final[columnIDs[i]] = rowIDs[i]
+	}
+
+	// Since each column will at most set one bit and clear one bit, we can
+	// reuse the rowIDs and columnIDs slices (their contents are in `final`
+	// now) as the set and clear slice arguments to importPositions.
+	toSet := rowIDs[:0]
+	toClear := columnIDs[:0]
+	for columnID, rowID := range final {
+		existingRowID, found, err := f.mutexVector.Get(columnID)
+		if err != nil {
 			return errors.Wrap(err, "getting mutex vector data")
-		} else if found && existingRowID != rowID {
+		} else if found && existingRowID == rowID {
+			continue
+		} else if found {
 			// Determine the position of the bit in the storage.
 			clearPos, err := f.pos(existingRowID, columnID)
 			if err != nil {
 				return err
 			}
-			columnIDs[clearIdx] = clearPos
-			clearIdx++
-
+			toClear = append(toClear, clearPos)
 			rowSet[existingRowID] = struct{}{}
-		} else if found && existingRowID == rowID {
-			continue
 		}
 		pos, err := f.pos(rowID, columnID)
 		if err != nil {
 			return err
 		}
-		colSet[columnID] = pos
+		toSet = append(toSet, pos)
 		rowSet[rowID] = struct{}{}
 	}
-
-	// re-use rowIDs by populating positions to set from colSet.
-	i := 0
-	for _, pos := range colSet {
-		rowIDs[i] = pos
-		i++
-	}
-	toSet := rowIDs[:i]
-	toClear := columnIDs[:clearIdx]
 
 	return errors.Wrap(f.importPositions(toSet, toClear, rowSet), "importing positions")
 }
